@@ -2960,3 +2960,162 @@ func ruleFetchCleansAfterRedirect(r *Run, rule string) {
 		}
 	}
 }
+
+// ruleLimitInstalledPerUnit (R03.32): in the cycle in which an execute unit asks for a flush,
+// the units stepped AFTER it in the same cycle must already see the limit (their pre-step
+// squashes a younger instruction instead of running it: a younger branch must not ask for a
+// flush of its own and override the restart pc). In the execute loop of the main loop the
+// sequence limit is stored into each unit before the unit is stepped.
+func ruleLimitInstalledPerUnit(r *Run, rule string) {
+	w := r.W
+	for _, v := range variants(w) {
+		if v.pkg == nil || !multiExec(v) {
+			continue
+		}
+		info := v.info
+		_, flush := v.retAndFlushBranches()
+		loop := v.mainLoop()
+		if flush == nil || loop == nil {
+			continue
+		}
+		fsv := flushStateVars(v, flush)
+		if len(fsv) == 0 {
+			continue
+		}
+		n := 0
+		for _, st := range loop.Body.List {
+			rs, ok := st.(*ast.RangeStmt)
+			if !ok || rs.Pos() >= flush.Pos() {
+				continue
+			}
+			// a range over the execute units that steps them and records flush requests
+			steps := false
+			var stepPos token.Pos
+			ast.Inspect(rs.Body, func(m ast.Node) bool {
+				if c, ok := m.(*ast.CallExpr); ok {
+					if sel, ok := c.Fun.(*ast.SelectorExpr); ok && strings.EqualFold(sel.Sel.Name, "cycle") {
+						if id, ok := ast.Unparen(sel.X).(*ast.Ident); ok && rs.Value != nil {
+							if vid, ok := rs.Value.(*ast.Ident); ok && info.Uses[id] == info.Defs[vid] {
+								steps = true
+								if stepPos == 0 {
+									stepPos = c.Pos()
+								}
+							}
+						}
+					}
+				}
+				return true
+			})
+			assignsState := false
+			ast.Inspect(rs.Body, func(m ast.Node) bool {
+				if as, ok := m.(*ast.AssignStmt); ok {
+					for _, l := range as.Lhs {
+						if id, ok := ast.Unparen(l).(*ast.Ident); ok {
+							if o, ok := info.Uses[id].(*types.Var); ok && fsv[o] {
+								assignsState = true
+							}
+						}
+					}
+				}
+				return true
+			})
+			if !steps || !assignsState {
+				continue
+			}
+			n++
+			installed := false
+			for _, bs := range rs.Body.List {
+				if bs.Pos() >= stepPos {
+					break
+				}
+				if as, ok := bs.(*ast.AssignStmt); ok && len(as.Lhs) == 1 && len(as.Rhs) == 1 {
+					if sel, ok := ast.Unparen(as.Lhs[0]).(*ast.SelectorExpr); ok {
+						if id, ok := ast.Unparen(sel.X).(*ast.Ident); ok && rs.Value != nil {
+							if vid, ok := rs.Value.(*ast.Ident); ok && info.Uses[id] == info.Defs[vid] {
+								if rid, ok := ast.Unparen(as.Rhs[0]).(*ast.Ident); ok {
+									if o, ok := info.Uses[rid].(*types.Var); ok && fsv[o] {
+										installed = true
+									}
+								}
+							}
+						}
+					}
+				}
+			}
+			r.check(installed, rule, fmt.Sprintf("%s.(CPU).Run:execute-loop#%d:limit-installed", v.rel, n), rs.Pos(), "the sequence limit of a flush requested earlier in the same cycle is stored into each execute unit before the unit is stepped")
+		}
+	}
+}
+
+// rulePerCycleFlagsLowered (R07.28): a bool field that the control unit's step raises when it
+// dispatches (a branch was pushed this cycle, a conditional branch is unresolved) and that its
+// dispatch decision tests is lowered again somewhere: unconditionally at the top level of the
+// step (a per-cycle flag), by a notification method, or by the flush (R07.20 decides WHICH for
+// the unresolved-branch flag). A flag that is only ever raised holds the instructions it guards
+// for ever.
+func rulePerCycleFlagsLowered(r *Run, rule string) {
+	w := r.W
+	for _, v := range variants(w) {
+		if v.pkg == nil || !multiExec(v) {
+			continue
+		}
+		for _, f := range v.fields {
+			if !f.isUnit || f.unitT == nil {
+				continue
+			}
+			st := structOf(f.unitT)
+			stepFn := hasDeclMethod(f.unitT, "cycle")
+			if st == nil || stepFn == nil {
+				continue
+			}
+			sfd, spk := w.FuncDecl(stepFn)
+			if sfd == nil || sfd.Body == nil {
+				continue
+			}
+			info := spk.TypesInfo
+			assigned := func(n ast.Node, fv *types.Var, val string, topOnly bool) bool {
+				found := false
+				check := func(s ast.Node) {
+					if as, ok := s.(*ast.AssignStmt); ok && len(as.Lhs) == 1 && len(as.Rhs) == 1 {
+						if sel, ok := ast.Unparen(as.Lhs[0]).(*ast.SelectorExpr); ok {
+							if s2 := info.Selections[sel]; s2 != nil && s2.Obj() == fv {
+								if tv := info.Types[as.Rhs[0]]; tv.Value != nil && tv.Value.String() == val {
+									found = true
+								}
+							}
+						}
+					}
+				}
+				if topOnly {
+					if b, ok := n.(*ast.BlockStmt); ok {
+						for _, s := range b.List {
+							check(s)
+						}
+					}
+				} else {
+					ast.Inspect(n, func(m ast.Node) bool { check(m); return true })
+				}
+				return found
+			}
+			for i := 0; i < st.NumFields(); i++ {
+				fv := st.Field(i)
+				if typeName(fv.Type()) != "bool" || !assigned(sfd.Body, fv, "true", false) {
+					continue
+				}
+				lowered := assigned(sfd.Body, fv, "false", true)
+				for j := 0; j < f.unitT.NumMethods() && !lowered; j++ {
+					m := f.unitT.Method(j)
+					if m == stepFn {
+						continue
+					}
+					if mfd, mpk := w.FuncDecl(m); mfd != nil && mfd.Body != nil && mpk == spk {
+						if assigned(mfd.Body, fv, "false", false) {
+							lowered = true
+						}
+					}
+				}
+				r.check(lowered, rule, fmt.Sprintf("%s.(%s):%s-lowered", v.rel, f.unitT.Obj().Name(), fv.Name()), sfd.Pos(), "the flag %s, raised by the unit's step, is lowered at the top level of every step, by a notification or by the flush", fv.Name())
+			}
+		}
+	}
+}
